@@ -29,8 +29,31 @@ func verifIfaceName(name string, n int) string {
 	return s
 }
 
+// verifFamily: every non-empty set of at most MAXNAMES names base+suffix, suffixes being all
+// strings of length 0..2 over a two-letter alphabet (7 suffixes: mixed lengths, names that are
+// prefixes of each other, names that share only the base).
+func verifFamily(base string, a, b string) []string {
+	sfx := []string{"", a, b, a + a, a + b, b + a, b + b}
+	mask := 1 + verifChoose("family-subset", 127)
+	n := 0
+	var out []string
+	for i := 0; i < 7; i++ {
+		if mask&(1<<uint(i)) != 0 {
+			n++
+			out = append(out, base+sfx[i])
+		}
+	}
+	verifAssume(n <= verifParam("MAXNAMES", 3))
+	return out
+}
+
 func VerifHarness_C10_workload() {
-	names := verifNameSets[verifChoose("nameset", verifParam("SETS", len(verifNameSets)))]
+	var names []string
+	if verifParam("FAMILY", 0) == 1 {
+		names = verifFamily("cali", "1", "2")
+	} else {
+		names = verifNameSets[verifChoose("nameset", verifParam("SETS", len(verifNameSets)))]
+	}
 	rr := verifRenderer()
 	eps := map[types.WorkloadEndpointID]*proto.WorkloadEndpoint{}
 	for i, n := range names {
@@ -65,6 +88,62 @@ func VerifHarness_C10_workload() {
 		}
 		if !known {
 			verifAssert("dispatch/unknown-interface-dropped", v == vDrop)
+		}
+	}
+}
+
+
+// VerifHarness_C10_host: host endpoint dispatch.  Known host interfaces reach their own chain;
+// anything else goes to the wildcard host endpoint's chain when one is configured (except egress
+// to a workload interface, which skips wildcard egress policy) and to no policy chain otherwise.
+func VerifHarness_C10_host() {
+	names := verifFamily("eth", "0", ".")
+	rr := verifRenderer()
+	rr.WorkloadIfacePrefixes = []string{"cali"}
+	eps := map[string]types.HostEndpointID{}
+	for _, n := range names {
+		eps[n] = types.HostEndpointID{EndpointId: "hep-" + n}
+	}
+	def := ""
+	if verifChoose("wildcard-hep", 2) == 1 {
+		def = "any-interface-at-all"
+	}
+	chains := rr.HostDispatchChains(eps, def, false)
+	cm := map[string][]generictables.Rule{}
+	for _, c := range chains {
+		cm[c.Name] = c.Rules
+	}
+	lmin, lmax := verifParam("LMIN", 3), verifParam("LMAX", 6)
+	l := lmin + verifChoose("len", lmax-lmin+1)
+	probe := verifIfaceName("iface", l)
+	for dir := 0; dir < 2; dir++ {
+		p := vNewPkt()
+		sets := &vSets{m: map[string]bool{}}
+		top, pfx := ChainDispatchFromHostEndpoint, HostFromEndpointPfx
+		if dir == 0 {
+			p.inIface = probe
+		} else {
+			p.outIface = probe
+			top, pfx = ChainDispatchToHostEndpoint, HostToEndpointPfx
+		}
+		v := vEvalRules(cm[top], p, sets, cm, 0)
+		known := false
+		for _, n := range names {
+			if probe == n {
+				known = true
+				verifAssert("host/known-interface-reaches-its-own-chain",
+					v == vHandOff && p.reached == EndpointChainName(pfx, n, iptables.MaxChainNameLength))
+			}
+		}
+		if known {
+			continue
+		}
+		toWorkload := dir == 1 && l >= 4 && probe[:4] == "cali"
+		if def != "" && !toWorkload {
+			verifAssert("host/unknown-interface-goes-to-wildcard-endpoint",
+				v == vHandOff && p.reached == EndpointChainName(pfx, def, iptables.MaxChainNameLength))
+		} else {
+			verifAssert("host/unknown-interface-reaches-no-endpoint-chain", v != vHandOff && v != vAccept && v != vDrop)
 		}
 	}
 }
